@@ -4,7 +4,7 @@ import LokiModel.C03.Untouched
 
 Model: `LokiModel/C03/Model.lean` (`cgen` = `FortranCodegenConservative`, `visitL`/`visitElem` = `Transformer` with source
 invalidation, `subst` = `SubstituteExpressions`); `tilesB`, `flagsOK`, `allValid`, `emit`: `LokiModel/C03/Tiles.lean`;
-`cleanB`, `knownEmptiedB`, `mapperValues`: `LokiModel/C03/Untouched.lean`.  All statements hold for every render table `R`
+`cleanB`, `mapperValues`: `LokiModel/C03/Untouched.lean`.  All statements hold for every render table `R`
 (the regular backend is abstract), every depth, every tree, every mapper.
 -/
 namespace LokiModel.C03
@@ -68,13 +68,13 @@ its rebuild (header/footer from the source when it tiles, `C03_tiles_any_invalid
 below it, `C03_untouched_region_verbatim`). -/
 theorem C03_edited_output (R : Render) (rs : Bool) (m : Mapper) (d : Nat) (ie : Bool) (ns : List Node) :
     cgenItems R d ie (visitL rs m ns) =
-      ns.flatMap fun n => (visitElem rs m n).map fun x => applyLabel x.info.label (cgen R d ie x) := by
+      ns.flatMap fun n => (visitElem rs m n).map fun x => applyLabelC x.info.label (cgen R d ie x) := by
   have happ : ∀ a b : List Node, cgenItems R d ie (a ++ b) = cgenItems R d ie a ++ cgenItems R d ie b := by
     intro a b
     induction a with
     | nil => simp [cgenItems]
     | cons x a ih => simp [cgenItems, ih]
-  have hmap : ∀ a : List Node, cgenItems R d ie a = a.map fun x => applyLabel x.info.label (cgen R d ie x) := by
+  have hmap : ∀ a : List Node, cgenItems R d ie a = a.map fun x => applyLabelC x.info.label (cgen R d ie x) := by
     intro a
     induction a with
     | nil => simp [cgenItems]
@@ -98,19 +98,20 @@ theorem C03_visitElem_cases (rs : Bool) (m : Mapper) (info : Info) (src : Option
   | some h => cases h <;> rfl
 
 /-- **`valid_implies_untouched` (partial).**  While `Transformer._rebuild` lets every node child trigger the invalidation of its
-parent (`rebuildTestsChildSource = false`, read off the code), after any mapper application to any tuple of trees every node of the
-result that is still `VALID` occurs, as a complete subtree, in the input or in a mapper value — its text is therefore still the text
-of its subtree.  Excluded: `ScopedNode`s without `rebuild_scopes` (their source is never looked at: `scoped-node-source-stale`) and
-mappers that remove all children of a kept node (`emptied-node-stays-valid`, `knownEmptiedLB`). -/
+parent (`rebuildTestsChildSource = false`, read off the code) — and, since the `fix:` commit recorded for
+`emptied-node-stays-valid`, also a changed number of node children — after any mapper application to any tuple of trees every node of
+the result that is still `VALID` occurs, as a complete subtree, in the input or in a mapper value: its text is therefore still the
+text of its subtree.  Excluded: `ScopedNode`s without `rebuild_scopes` (their source is never looked at:
+`scoped-node-source-stale`). -/
 theorem C03_valid_implies_untouched_partial (hT : rebuildTestsChildSource = false) (rs : Bool) (m : Mapper)
     (ns : List Node) (n' : Node)
     (hm : n' ∈ preorderL (visitL rs m ns)) (hv : n'.status = some .valid)
-    (hs : n'.info.kind = .scoped → rs = true) (hk : knownEmptiedLB rs m ns = false) :
+    (hs : n'.info.kind = .scoped → rs = true) :
     n' ∈ preorderL ns ∨ n' ∈ preorderL (mapperValues m) :=
-  visitL_valid_mem hT rs m ns n' hm hv hs hk
+  visitL_valid_mem hT rs m ns n' hm hv hs
 
 /-- the same for `SubstituteExpressions`: a node that is still `VALID` afterwards is an unchanged subtree of the input (no class
-needed: a substitution never removes nodes) -/
+needed) -/
 theorem C03_subst_valid_implies_untouched_partial (hT : rebuildTestsChildSource = false) (rs : Bool) (e : Nat → Option Nat)
     (n n' : Node) (hm : n' ∈ preorder (subst rs e n)) (hv : n'.status = some .valid)
     (hs : n'.info.kind = .scoped → rs = true) : n' ∈ preorder n :=
@@ -123,7 +124,8 @@ theorem C03_tiles_invariant (R : Render) (rs : Bool) (n : Node) (ie : Bool) :
 /-- the tables regenerated from the code: which handlers `FortranCodegenConservative` overrides (the model's dispatch by kind), the indentation steps of the default style -/
 theorem C03_tables_agree :
     conservativeHandlers = ["visit_Assignment", "visit_CallStatement", "visit_Comment", "visit_Conditional", "visit_Import",
-      "visit_Loop", "visit_Module", "visit_Node", "visit_Section", "visit_Subroutine", "visit_VariableDeclaration"] ∧
+      "visit_Loop", "visit_Module", "visit_Node", "visit_Section", "visit_Subroutine", "visit_VariableDeclaration",
+      "visit_tuple"] ∧
     loopIndent = 2 ∧ conditionalIndent = 2 := by decide
 
 end LokiModel.C03
